@@ -9,6 +9,14 @@ REQ_METHODS = {'Shutdown': 'shutdown', 'SemanticTokensFullRequest': 'textDocumen
 NOTIF_METHODS = {'Exit': 'exit', 'DidOpenTextDocument': 'textDocument/didOpen', 'DidChangeTextDocument': 'textDocument/didChange'}
 MORE_NOTIF_METHODS = {'Cancel': '$/cancelRequest', 'DidCloseTextDocument': 'textDocument/didClose', 'DidSaveTextDocument': 'textDocument/didSave', 'Initialized': 'initialized'}
 
+def new_source(M, P, fid, data):
+    """a Source value built by the real `Source::new(data, &file_id)` of the current tree (whatever fields the struct has)"""
+    keys = [k for k in P.items if k[0] == 'ironplcc' and re.fullmatch(r'source::<impl at [^>]*>::new', k[1]) and P.items[k].ret.endswith('Source')]
+    if len(keys) != 1: raise Unsupported('Source::new: %d candidates' % len(keys))
+    d = data if isinstance(data, Str) else Str(data)
+    f = fid if not isinstance(fid, str) else Agg('FileId', [Str(fid)])
+    return M.call_fn(keys[0], [d, Ref(Cell(f))])
+
 def mkstruct(P, _struct_name, **kw):
     name = _struct_name
     fs = [f for f, _ in P.structs.get(name, [])]
